@@ -510,6 +510,16 @@ def _process_internal_events_without_default_matchers(
             # The flow that wanted to start this flow was aborted in the meantime (e.g. by its parent),
             # starting the flow now would leave it running without a running parent
             log.info("Start of flow '%s' skipped since parent flow was aborted", flow_id)
+        elif (
+            source_flow_state is not None
+            and source_flow_state.flow_id == flow_id
+            and event.arguments.get("activated", None)
+            and source_flow_state.activated == 0
+            and _is_done_flow(source_flow_state)
+        ):
+            # The activated flow was deactivated (last activating flow ended) after
+            # the restart of the flow instance was requested
+            log.info("Restart of flow '%s' skipped since it was deactivated", flow_id)
         elif flow_id in state.flow_configs and flow_id != "main":
             started_instance = None
             if (
